@@ -9,10 +9,15 @@
 (*         Call(a) -> Return(b) -> Call(b) -> Return(b2); status is "ok" or names   *)
 (*         the exception / exhausted budget; idem says b2 is the same object as b   *)
 EXTENDS Expr, Json, IOUtils
-VARIABLE i
+VARIABLES lo, hi
 Items == JsonDeserialize(IOEnv.ITEMS_FILE)
-Init == i \in 1..Len(Items)
-Next == UNCHANGED i
+(* the batch is split by bisection so that TLC's workers judge the items in parallel *)
+Init == lo = 1 /\ hi = Len(Items)
+Next == /\ lo < hi
+        /\ LET mid == (lo + hi) \div 2 IN
+           \/ lo' = lo /\ hi' = mid
+           \/ lo' = mid + 1 /\ hi' = hi
+i == lo
 
 RECURSIVE FirstBadEq(_, _, _, _)
 FirstBadEq(a, b, envs, k) ==
@@ -40,5 +45,5 @@ Verdict(it) ==
          LET va == Eval(it.a, it.env) IN
          IF va.unk THEN "unk" ELSE IF ~va.ok THEN "undef"
          ELSE IF va.v = FromBytes(it.v, it.a.w) THEN "ok" ELSE "bad:1"
-Report == PrintT("V " \o ToString(i) \o " " \o Verdict(Items[i]))
+Report == lo < hi \/ PrintT("V " \o ToString(i) \o " " \o Verdict(Items[i]))
 =============================================================================
